@@ -156,6 +156,11 @@ def eq_readers(m):
         others.append(('an OMD without the last pair', p[:-1], m.eq_pairs(p[:-1]), 'eq_omd'))
         if p[::-1] != p:
             others.append(('an OMD with the pairs reversed', p[::-1], m.eq_pairs(p[::-1]), 'eq_omd'))
+        # same key set (so the same len), one more pair: at the end / at the front, under the last / the first key
+        for lab, ex in (('an OMD with one more trailing pair under an existing key', p + [(p[-1][0], 'Y')]),
+                        ('an OMD with one more trailing pair under an existing key', p + [(p[0][0], p[0][1])]),
+                        ('an OMD with one more leading pair under an existing key', [(p[-1][0], p[-1][1])] + p)):
+            others.append((lab, ex, m.eq_pairs(ex), 'eq_omd'))
     td = m.todict()
     cands = [('an equal plain dict', td), ('a plain dict with an extra key', dict(td, zz=1))]
     for k in list(td)[:1] + list(td)[-1:]:
